@@ -9,6 +9,7 @@ import CbiVerif.Drv.C08
 import CbiVerif.Drv.Argv
 import CbiVerif.Drv.C01
 import CbiVerif.Drv.CLex
+import CbiVerif.Drv.Compilers
 /-! Native JSON-lines driver: one request object per line, one reply per line.
 Each area registers its ops in `CbiVerif/Drv/<Area>.lean`. -/
 open Lean
@@ -23,7 +24,8 @@ def handlerTable : List (String × (Json → Json)) :=
   CbiVerif.Drv.C08.handlers ++
   CbiVerif.Drv.Argv.handlers ++
   CbiVerif.Drv.C01.handlers ++
-  CbiVerif.Drv.CLex.handlers
+  CbiVerif.Drv.CLex.handlers ++
+  CbiVerif.Drv.Compilers.handlers
 
 def handle (j : Json) : Json :=
   match j.getObjValAs? String "op" with
